@@ -144,7 +144,7 @@ type CallPlan struct {
 }
 
 type PanicPlan struct {
-	Kind int // 0 nil 1 error 2 string 3 struct 4 ErrAbortHandler
+	Kind int // 0 nil 1 error 2 string 3 struct 4 ErrAbortHandler 5 error wrapping it 6 slice 7 map 8 struct with a slice 9 pointer
 	Text string
 }
 
